@@ -166,9 +166,11 @@ def enum_member(node, enum_cls=None):
     v = node.value
     cls = v.attr if isinstance(v, ast.Attribute) else (v.id if isinstance(v, ast.Name) else None)
     m = node.attr
-    if cls and cls[:1].isupper() and m[:1].isalpha() and m == m.upper():
-        if enum_cls is None or cls == enum_cls:
-            return (cls, m)
+    if cls and cls[:1].isupper() and m[:1].isalpha():
+        in_enums = isinstance(v, ast.Attribute) and isinstance(v.value, ast.Name) and v.value.id == 'enums'
+        if m == m.upper() or (in_enums and m[:1].isupper()):
+            if enum_cls is None or cls == enum_cls:
+                return (cls, m)
     return None
 
 
